@@ -97,6 +97,27 @@ class Ctx:
         if nontrivial:
             self.nontrivial += 1
 
+    def include(self, other_prop, why):
+        """run the rules of another property's check as part of this one (they are necessary conditions of this property as
+        well); facts and analyses are shared, violations / counts / obligations are merged under their own rule ids"""
+        import importlib
+        child = Ctx(self.prop, self.tier, self.seed)
+        child._facts, child._analyses, child.build_info = self._facts, self._analyses, self.build_info
+        child.reviewed, child.floors = [], {}
+        mod = importlib.import_module("sa.rules." + other_prop.lower())
+        mod.run(child)
+        for v in child.violations:
+            if not any(x["key"] == v["key"] for x in self.violations):
+                self.violations.append(v)
+        for k, n in child.counts.items():
+            self.counts[k] = self.counts.get(k, 0) + n
+        for k, t in child.rules.items():
+            self.rules.setdefault(k, t)
+        self.obligations += child.obligations
+        self.discharged += child.discharged
+        self.nontrivial += child.nontrivial
+        self.cov.setdefault("shared_rules", []).append({"from": other_prop, "why": why, "rules": sorted(child.rules)})
+
     # ---------------------------------------------------------------- finish
     def finish(self):
         # floors: a rule that matched fewer instances than counted by hand fails closed
